@@ -129,15 +129,17 @@ def main():
         run = obs['runs'][0]
         if obs['verdict'] != 'finished' or run['outcome'][0] != 'value' or ref['result'][0] != 'ok' or run['outcome'][1] != ref['result'][1]:
             problems.append('run did not finish with the reference value: verdict=%s outcome=%s' % (obs['verdict'], json.dumps(run['outcome'])[:120]))
-        res = model.run(spec, obs['actions'], obs['orders'], obs['descendants'])
+        res = model.run(spec, obs['actions'], obs['orders'], obs['descendants'], hyps=(2 if len(spec['nodes']) <= 9 else 1))
         # hypotheses of C06_on_plain_programs on this program, with the orders recorded from the real chart (extracted model)
         if res.get('plain') and not res.get('ambiguous_orders'):
             st['plain_programs_runs'] += 1
             if res.get('orders_valid'):
                 st['plain_hypotheses_hold'] += 1
+            if res.get('hyps') == 2:
+                st['plain_c06_hypotheses_evaluated'] += 1
             if res.get('orders_valid') and res.get('orders_by_depth'):
                 st['plain_c06_hypotheses_hold'] += 1
-            elif len(k2_broken) < 3:
+            elif (res.get('hyps') == 2 or not res.get('orders_valid')) and len(k2_broken) < 3:
                 k2_broken.append(dict(diffs=['the launch / successor orders recorded from networkx are not valid and depth-sorted: the hypotheses of '
                                              'C06_on_plain_programs fail on this program'], spec=spec, actions=obs['actions'], tag=tag))
         if not res.get('ambiguous_orders'):
